@@ -216,7 +216,7 @@ def call(eng, ctx, cp, self_ty, trait, generics, args, env):
         return stub_into_writer(eng, ctx, args)
 
     # ---- panics ------------------------------------------------------------------------
-    if cp.kind == "free" and m in ("panic", "panic_fmt", "panic_explicit", "unwrap_failed",
+    if cp.kind == "free" and m in ("panic", "panic_fmt", "panic_explicit", "unwrap_failed", "begin_panic",
                                    "expect_failed", "panic_bounds_check", "unreachable_display"):
         msg = ""
         if args and isinstance(args[0], Ref) and isinstance(deref(args[0]), VecV):
@@ -263,7 +263,24 @@ def call(eng, ctx, cp, self_ty, trait, generics, args, env):
         if isinstance(x, Sc) and tgt in INT_BITS:
             return checked_narrow(ctx, x, tgt)
 
-    # ---- integers -----------------------------------------------------------------------
+    # ---- integer conversions and arithmetic helpers -----------------------------------------
+    if tn in ("From", "Into") and m in ("from", "into") and args and isinstance(deref(args[0]), (Sc, Adt)):
+        src = deref(args[0]) if not isinstance(args[0], Sc) else args[0]
+        tgt = sn if tn == "From" else (trait.args[0].name if trait.args else None)
+        if isinstance(src, Adt) and src.ty == "Integer" and tgt in ("i128",):
+            return src.fields[0]
+        if isinstance(src, Sc) and tgt in INT_BITS and src.ty in INT_BITS:
+            from interp import int_cast
+            return int_cast(src, tgt)          # lossless widening (From is only defined for those)
+        if isinstance(src, Sc) and tgt == "Integer":
+            return Adt("Integer", None, [widen_i128(src)])
+        if isinstance(src, Sc) and src.ty == "bool" and tgt in INT_BITS:
+            from interp import int_cast
+            return int_cast(src, tgt)
+    if isinstance(args[0] if args else None, Sc) and sn in INT_BITS and cp.kind == "inherent":
+        r = int_method(ctx, m, args)
+        if r is not NO_MODEL:
+            return r
     if m == "signum" and isinstance(args[0], Sc):
         x = args[0]
         if not is_sym(x.v):
@@ -286,6 +303,21 @@ def call(eng, ctx, cp, self_ty, trait, generics, args, env):
         if not is_sym(a.v):
             return a if a.v != 0 else b
         return ordering(z3.If(a.v != 0, a.v, bv(b)))
+    if sn == "Ordering" and m == "then_with":
+        a = args[0]
+        if not is_sym(a.v):
+            return a if a.v != 0 else eng.call_fnv(ctx, args[1], [])
+        if ctx.branch(a.v != 0, "then_with"):
+            return a
+        return eng.call_fnv(ctx, args[1], [])
+    if sn == "Ordering" and m in ("is_eq", "is_ne", "is_lt", "is_gt", "is_le", "is_ge"):
+        a = args[0]
+        x = a.v if is_sym(a.v) else z3.BitVecVal(int(a.v), 8)
+        zero = z3.BitVecVal(0, 8)
+        c = {"is_eq": x == zero, "is_ne": x != zero, "is_lt": x < zero, "is_gt": x > zero,
+             "is_le": x <= zero, "is_ge": x >= zero}[m]
+        c = z3.simplify(c)
+        return mk_bool(True if z3.is_true(c) else (False if z3.is_false(c) else c))
     if sn == "Ordering" and m == "reverse":
         a = args[0]
         return ordering(-a.v)
@@ -315,6 +347,10 @@ def call(eng, ctx, cp, self_ty, trait, generics, args, env):
     # ---- Clone ---------------------------------------------------------------------------
     if tn == "Clone" and m == "clone":
         return deep_clone(deref(args[0]))
+    if (tn == "ToString" and m == "to_string") or (tn in ("From", "Into") and sn == "String" and m in ("from", "into")
+                                                   and isinstance(deref(args[0]), VecV)):
+        v = deref(args[0])
+        return VecV(list(v.elems) if v.elems is not None else None, v.opaque, "string")
     if tn == "ToOwned" and m == "to_owned":
         v = deref(args[0])
         return VecV(list(v.elems) if v.elems is not None else None, v.opaque,
@@ -399,6 +435,11 @@ def call(eng, ctx, cp, self_ty, trait, generics, args, env):
             return r
         if m == "collect":
             return iter_collect(eng, ctx, it, generics[0] if generics else None)
+        if m in ("any", "all", "position", "find", "filter", "enumerate", "zip", "skip", "take", "last",
+                 "for_each", "fold", "sum", "cloned", "copied", "peekable", "chain", "flatten", "max", "min"):
+            r = iter_adaptor(eng, ctx, it, m, args)
+            if r is not NO_MODEL:
+                return r
         if m == "count":
             if it.items is None and it.fn == "matches":
                 return it.inner
@@ -409,6 +450,11 @@ def call(eng, ctx, cp, self_ty, trait, generics, args, env):
                     return Sc("usize", n)
                 n += 1
 
+    # ---- BTreeMap (ordered association list driven by the key type's Ord) ---------------------
+    if sn == "BTreeMap":
+        r = map_model(eng, ctx, self_ty, m, args)
+        if r is not NO_MODEL:
+            return r
     # ---- BTreeSet ------------------------------------------------------------------------------
     if sn == "BTreeSet":
         r = set_model(eng, ctx, self_ty, m, args)
@@ -431,9 +477,56 @@ def call(eng, ctx, cp, self_ty, trait, generics, args, env):
             if o.variant == "None":
                 _panic("unwrap", "called Option::%s on a None value" % m, raw)
             return o.fields[0]
+        if m == "or":
+            return args[0] if args[0].variant == "Some" else args[1]
+        if m == "or_else":
+            return args[0] if args[0].variant == "Some" else eng.call_fnv(ctx, args[1], [])
+        if m in ("as_deref", "as_deref_mut"):
+            if o.variant == "None":
+                return OPT_NONE()
+            return OPT_SOME(Ref(o.fields, 0))
+        if m == "filter":
+            o = args[0]
+            if o.variant == "None":
+                return o
+            keep = eng.call_fnv(ctx, args[1], [Ref(o.fields, 0)])
+            return o if _truth(ctx, keep, "option-filter") else OPT_NONE()
         if m == "unwrap_or":
             o = args[0]
             return o.fields[0] if o.variant == "Some" else args[1]
+        if m == "unwrap_or_default":
+            o = args[0]
+            return o.fields[0] if o.variant == "Some" else default_of(eng, ctx, self_ty.args[0])
+        if m == "unwrap_or_else":
+            o = args[0]
+            return o.fields[0] if o.variant == "Some" else eng.call_fnv(ctx, args[1], [])
+        if m == "map":
+            o = args[0]
+            return OPT_SOME(eng.call_fnv(ctx, args[1], [o.fields[0]])) if o.variant == "Some" else o
+        if m == "and_then":
+            o = args[0]
+            return eng.call_fnv(ctx, args[1], [o.fields[0]]) if o.variant == "Some" else o
+        if m in ("ok_or",):
+            o = args[0]
+            return OK(o.fields[0]) if o.variant == "Some" else ERR(args[1])
+        if m == "ok_or_else":
+            o = args[0]
+            return OK(o.fields[0]) if o.variant == "Some" else ERR(eng.call_fnv(ctx, args[1], []))
+        if m == "as_mut":
+            if o.variant == "None":
+                return OPT_NONE()
+            return OPT_SOME(Ref(o.fields, 0))
+        if m == "take":
+            ref = args[0]
+            cur = ref.get()
+            ref.set(OPT_NONE())
+            return cur
+        if m == "cloned" or m == "copied":
+            o = args[0]
+            return OPT_SOME(deep_clone(deref(o.fields[0]))) if o.variant == "Some" else o
+        if m == "is_some_and":
+            o = args[0]
+            return eng.call_fnv(ctx, args[1], [o.fields[0]]) if o.variant == "Some" else mk_bool(False)
     if sn == "Result":
         r = args[0]
         if m in ("unwrap", "expect"):
@@ -445,17 +538,41 @@ def call(eng, ctx, cp, self_ty, trait, generics, args, env):
                 return r
             return ERR(eng.call_fnv(ctx, args[1], [r.fields[0]]))
         if m == "is_ok":
-            return mk_bool(r.variant == "Ok")
+            return mk_bool(deref(r).variant == "Ok")
         if m == "is_err":
-            return mk_bool(r.variant == "Err")
+            return mk_bool(deref(r).variant == "Err")
+        if m == "ok":
+            return OPT_SOME(r.fields[0]) if r.variant == "Ok" else OPT_NONE()
+        if m == "err":
+            return OPT_SOME(r.fields[0]) if r.variant == "Err" else OPT_NONE()
+        if m == "map":
+            return OK(eng.call_fnv(ctx, args[1], [r.fields[0]])) if r.variant == "Ok" else r
+        if m == "and_then":
+            return eng.call_fnv(ctx, args[1], [r.fields[0]]) if r.variant == "Ok" else r
+        if m == "or_else":
+            return eng.call_fnv(ctx, args[1], [r.fields[0]]) if r.variant == "Err" else r
+        if m == "unwrap_or":
+            return r.fields[0] if r.variant == "Ok" else args[1]
+        if m == "unwrap_or_default":
+            return r.fields[0] if r.variant == "Ok" else default_of(eng, ctx, self_ty.args[0])
+        if m == "unwrap_or_else":
+            return r.fields[0] if r.variant == "Ok" else eng.call_fnv(ctx, args[1], [r.fields[0]])
+        if m == "as_ref":
+            rr = deref(args[0])
+            return Adt("Result", rr.variant, [Ref(rr.fields, 0)])
 
-    # ---- str helpers used by the content-type rule --------------------------------------------------
-    if sn == "str" and m == "trim":
-        return str_trim(ctx, args[0])
-    if sn == "str" and m == "matches":
-        return str_matches_count(ctx, args[0], args[1])
-    if sn == "str" and m == "is_empty":
-        return seq_is_empty(ctx, args[0])
+    # ---- str / char helpers ------------------------------------------------------------------------
+    if sn in ("str", "String") and args:
+        r = str_model(eng, ctx, cp, m, args)
+        if r is not NO_MODEL:
+            return r
+    if sn == "char" and args:
+        r = char_model(ctx, m, args)
+        if r is not NO_MODEL:
+            return r
+    if tn == "Index" and m == "index" and isinstance(deref(args[0]), VecV) and deref(args[0]).kind in ("str", "string") \
+            and isinstance(deref(args[1]), Adt):
+        return str_index_range(ctx, args[0], args[1], raw)
     return NO_MODEL
 
 
@@ -464,6 +581,75 @@ _CP_CACHE = {}
 
 def _cp(s):
     return parse_callpath(s)
+
+
+def int_method(ctx, m, args):
+    """Inherent integer methods (documented semantics; wrapping where the docs say so)."""
+    from interp import binop, int_cast, unop
+    x = args[0]
+    ty, bits, signed = x.ty, x.bits, x.signed
+    uty = "u" + ty[1:] if signed else ty
+
+    def lit(n):
+        return Sc(ty, wrap(ty, n))
+    if m in ("wrapping_add", "wrapping_sub", "wrapping_mul"):
+        return binop({"wrapping_add": "Add", "wrapping_sub": "Sub", "wrapping_mul": "Mul"}[m], x, args[1])
+    if m in ("checked_add", "checked_sub", "checked_mul"):
+        t = binop({"checked_add": "AddWithOverflow", "checked_sub": "SubWithOverflow",
+                   "checked_mul": "MulWithOverflow"}[m], x, args[1])
+        ovf = t.fields[1]
+        if ctx.branch(zbool(ovf) if is_sym(ovf.v) else bool(ovf.v), "int-overflow"):
+            return OPT_NONE()
+        return OPT_SOME(t.fields[0])
+    if m in ("overflowing_add", "overflowing_sub", "overflowing_mul"):
+        return binop({"overflowing_add": "AddWithOverflow", "overflowing_sub": "SubWithOverflow",
+                      "overflowing_mul": "MulWithOverflow"}[m], x, args[1])
+    if m in ("saturating_add", "saturating_sub"):
+        t = binop("AddWithOverflow" if m == "saturating_add" else "SubWithOverflow", x, args[1])
+        ovf = t.fields[1]
+        if not ctx.branch(zbool(ovf) if is_sym(ovf.v) else bool(ovf.v), "int-saturate"):
+            return t.fields[0]
+        lo = -(1 << (bits - 1)) if signed else 0
+        hi = (1 << (bits - 1)) - 1 if signed else (1 << bits) - 1
+        if not signed:
+            return Sc(ty, hi if m == "saturating_add" else lo)
+        neg = binop("Lt", args[1], Sc(ty, 0))
+        up = (m == "saturating_add") != bool(ctx.branch(zbool(neg) if is_sym(neg.v) else bool(neg.v), "sat-dir"))
+        return Sc(ty, hi if up else lo)
+    if m in ("is_negative", "is_positive"):
+        return binop("Lt" if m == "is_negative" else "Gt", x, Sc(ty, 0))
+    if m in ("abs", "wrapping_abs"):
+        neg = binop("Lt", x, Sc(ty, 0))
+        if not is_sym(x.v):
+            return lit(abs(int(x.v)))
+        return Sc(ty, z3.If(neg.v, -x.v, x.v))
+    if m == "unsigned_abs":
+        if not is_sym(x.v):
+            return Sc(uty, abs(int(x.v)))
+        return Sc(uty, z3.If(x.v < 0, -x.v, x.v))
+    if m in ("min", "max") and len(args) == 2:
+        c = binop("Lt" if m == "min" else "Gt", x, args[1])
+        if not is_sym(c.v):
+            return x if c.v else args[1]
+        return Sc(ty, z3.If(c.v, bv(x), bv(args[1])))
+    if m == "pow" and not is_sym(x.v) and not is_sym(args[1].v):
+        return lit(int(x.v) ** int(args[1].v))
+    if m in ("to_be_bytes", "to_le_bytes"):
+        n = bits // 8
+        if is_sym(x.v):
+            bs = [Sc("u8", z3.simplify(z3.Extract(8 * i + 7, 8 * i, x.v))) for i in range(n)]
+        else:
+            v = int(x.v) & ((1 << bits) - 1)
+            bs = [Sc("u8", (v >> (8 * i)) & 0xFF) for i in range(n)]
+        if m == "to_be_bytes":
+            bs.reverse()
+        return Arr(bs)
+    if m == "leading_zeros" and not is_sym(x.v):
+        v = int(x.v) & ((1 << bits) - 1)
+        return Sc("u32", bits - v.bit_length())
+    if m == "count_ones" and not is_sym(x.v):
+        return Sc("u32", bin(int(x.v) & ((1 << bits) - 1)).count("1"))
+    return NO_MODEL
 
 
 def widen_i128(x):
@@ -508,6 +694,8 @@ def default_of(eng, ctx, ty):
         return OPT_NONE()
     if n == "BTreeSet":
         return SetV([])
+    if n == "BTreeMap":
+        return MapV([])
     if n in INT_BITS:
         return Sc(n, 0)
     if n == "bool":
@@ -589,6 +777,27 @@ def vec_model(eng, ctx, cp, self_ty, trait, m, args):
     if m == "reverse":
         v.elems.reverse()
         return UNIT
+    if m in ("binary_search", "binary_search_by") and v.elems is not None:
+        return binary_search(eng, ctx, self_ty, v, args[1], m == "binary_search_by")
+    if m == "dedup" and v.elems is not None:
+        out = []
+        et = self_ty.args[0] if self_ty.args else None
+        for x in v.elems:
+            if out:
+                c = elementwise_eq(eng, ctx, Ty("Option", [et]) if et is not None else None,
+                                   OPT_SOME(out[-1]), OPT_SOME(x)) if et is not None else struct_eq(ctx, out[-1], x)
+                same = c if isinstance(c, bool) else ctx.branch(c, "dedup-eq")
+                if same:
+                    continue
+            out.append(x)
+        v.elems[:] = out
+        return UNIT
+    if m == "sort" and v.elems is not None:
+        et = self_ty.args[0]
+        cmpf = FnV(py=lambda c, a: eng.dispatch(c, _cp("<%s as Ord>::cmp" % et), a, {}))
+        return sort_by(eng, ctx, v, cmpf)
+    if m == "sort_by_key":
+        _unsupported("sort_by_key")
     if m == "sort_by":
         return sort_by(eng, ctx, v, args[1])
     if m in ("as_slice", "as_bytes", "as_str", "as_mut_slice"):
@@ -601,7 +810,89 @@ def vec_model(eng, ctx, cp, self_ty, trait, m, args):
         if not v.elems:
             return OPT_NONE()
         return OPT_SOME(v.elems.pop())
+    if m == "insert" and v.elems is not None and not is_sym(args[1].v):
+        i = int(args[1].v)
+        if i > len(v.elems):
+            _panic("index", "insertion index (is %d) should be <= len (is %d)" % (i, len(v.elems)), cp.raw)
+        v.elems.insert(i, args[2])
+        return UNIT
+    if m == "extend_from_slice" and v.elems is not None:
+        o = deref(args[1])
+        if o.elems is None:
+            if v.elems:
+                _unsupported("extend_from_slice with an opaque byte string onto a non-empty vector")
+            v.elems, v.opaque = None, o.opaque
+        else:
+            v.elems.extend(o.elems)
+        return UNIT
+    if m in ("first", "last") and v.elems is not None:
+        if not v.elems:
+            return OPT_NONE()
+        return OPT_SOME(Ref(v.elems, 0 if m == "first" else len(v.elems) - 1))
+    if m == "get" and v.elems is not None and isinstance(args[1], Sc) and not is_sym(args[1].v):
+        i = int(args[1].v)
+        return OPT_SOME(Ref(v.elems, i)) if 0 <= i < len(v.elems) else OPT_NONE()
+    if m == "swap" and v.elems is not None and not is_sym(args[1].v) and not is_sym(args[2].v):
+        i, j = int(args[1].v), int(args[2].v)
+        if max(i, j) >= len(v.elems):
+            _panic("index", "swap index out of bounds", cp.raw)
+        v.elems[i], v.elems[j] = v.elems[j], v.elems[i]
+        return UNIT
+    if m == "truncate" and v.elems is not None and not is_sym(args[1].v):
+        del v.elems[int(args[1].v):]
+        return UNIT
+    if m == "contains" and v.elems is not None:
+        x = deref(args[1])
+        conds = []
+        for e in v.elems:
+            c = struct_eq(ctx, e, x)
+            if c is True:
+                return mk_bool(True)
+            if c is not False:
+                conds.append(c)
+        return mk_bool(z3.Or(conds) if conds else False)
+    if m == "starts_with" and v.elems is not None:
+        o = deref(args[1])
+        if o.elems is not None:
+            if len(o.elems) > len(v.elems):
+                return mk_bool(False)
+            return mk_bool(bytes_eq(ctx, VecV(v.elems[:len(o.elems)], None, "vec"), o))
+    if m == "chars" and v.elems is not None:
+        if any(is_sym(b.v) for b in v.elems):
+            # symbolic text is ASCII by construction (stated bound): one char per byte
+            return IterV([Sc("char", z3.ZeroExt(24, b.v) if is_sym(b.v) else int(b.v)) for b in v.elems])
+        txt = bytes(int(b.v) for b in v.elems).decode("utf-8", "replace")
+        return IterV([Sc("char", ord(c)) for c in txt])
+    if m == "bytes" and v.elems is not None:
+        return IterV(list(v.elems))
     return NO_MODEL
+
+
+def binary_search(eng, ctx, self_ty, v, key, by):
+    """core::slice::binary_search_by as implemented in the standard library this toolchain ships
+    (branch-free bisection: size halves, `base` moves right unless the probe compares Greater)."""
+    et = self_ty.args[0] if self_ty.args else None
+
+    def probe(i):
+        if by:
+            o = eng.call_fnv(ctx, key, [Ref(v.elems, i)])
+        else:
+            o = eng.dispatch(ctx, _cp("<%s as Ord>::cmp" % et), [Ref(v.elems, i), key], {})
+        return concretize_ordering(ctx, o)
+    size = len(v.elems)
+    if size == 0:
+        return ERR(Sc("usize", 0))
+    base = 0
+    while size > 1:
+        half = size // 2
+        mid = base + half
+        if probe(mid) != 1:
+            base = mid
+        size -= half
+    c = probe(base)
+    if c == 0:
+        return OK(Sc("usize", base))
+    return ERR(Sc("usize", base + (1 if c < 0 else 0)))
 
 
 def sort_by(eng, ctx, v, f):
@@ -648,6 +939,91 @@ def iter_next(eng, ctx, it):
     _unsupported("iterator state")
 
 
+def _drain(eng, ctx, it):
+    out = []
+    while True:
+        x = iter_next(eng, ctx, it)
+        if x.variant == "None":
+            return out
+        out.append(x.fields[0])
+
+
+def _truth(ctx, b, label):
+    if not is_sym(b.v):
+        return bool(b.v)
+    return ctx.branch(zbool(b), label)
+
+
+def iter_adaptor(eng, ctx, it, m, args):
+    """Iterator adaptors / consumers on concrete-length sequences (closures may be coset MIR)."""
+    if isinstance(it, IterV) and it.fn == "matches":
+        return NO_MODEL
+    items = _drain(eng, ctx, it)
+    if m == "enumerate":
+        return IterV([Tup([Sc("usize", i), x]) for i, x in enumerate(items)])
+    if m == "zip":
+        other = args[1]
+        if isinstance(other, VecV):
+            other = IterV(list(other.elems))
+        if isinstance(other, Ref):
+            vv = deref(other)
+            other = IterV([Ref(vv.elems, i) for i in range(len(vv.elems))])
+        return IterV([Tup([a, b]) for a, b in zip(items, _drain(eng, ctx, other))])
+    if m == "skip":
+        return IterV(items[int(args[1].v):])
+    if m == "take":
+        return IterV(items[:int(args[1].v)])
+    if m in ("cloned", "copied"):
+        return IterV([deep_clone(deref(x)) for x in items])
+    if m == "last":
+        return OPT_SOME(items[-1]) if items else OPT_NONE()
+    if m == "peekable":
+        return IterV(items)
+    if m == "chain":
+        other = args[1]
+        rest = _drain(eng, ctx, other) if isinstance(other, IterV) else list(deref(other).elems)
+        return IterV(items + rest)
+    f = args[1] if len(args) > 1 else None
+    if m == "any":
+        for x in items:
+            if _truth(ctx, eng.call_fnv(ctx, f, [x]), "iter-any"):
+                return mk_bool(True)
+        return mk_bool(False)
+    if m == "all":
+        for x in items:
+            if not _truth(ctx, eng.call_fnv(ctx, f, [x]), "iter-all"):
+                return mk_bool(False)
+        return mk_bool(True)
+    if m == "position":
+        for i, x in enumerate(items):
+            if _truth(ctx, eng.call_fnv(ctx, f, [x]), "iter-position"):
+                return OPT_SOME(Sc("usize", i))
+        return OPT_NONE()
+    if m == "find":
+        for x in items:
+            if _truth(ctx, eng.call_fnv(ctx, f, [Ref(Cell(x))]), "iter-find"):
+                return OPT_SOME(x)
+        return OPT_NONE()
+    if m == "filter":
+        return IterV([x for x in items if _truth(ctx, eng.call_fnv(ctx, f, [Ref(Cell(x))]), "iter-filter")])
+    if m == "for_each":
+        for x in items:
+            eng.call_fnv(ctx, f, [x])
+        return UNIT
+    if m == "fold":
+        acc = args[1]
+        for x in items:
+            acc = eng.call_fnv(ctx, args[2], [acc, x])
+        return acc
+    if m == "sum" and all(isinstance(x, Sc) for x in items):
+        from interp import binop
+        acc = Sc(items[0].ty if items else "usize", 0)
+        for x in items:
+            acc = binop("Add", acc, x)
+        return acc
+    return NO_MODEL
+
+
 def iter_collect(eng, ctx, it, target):
     """collect::<Result<Vec<T>, E>>() stops at the first Err; collect::<Vec<T>>() takes all."""
     out = []
@@ -662,6 +1038,15 @@ def iter_collect(eng, ctx, it, target):
                 return ERR(y.fields[0])
             y = y.fields[0]
         out.append(y)
+    inner = target.args[0] if (as_result and target is not None and target.args) else target
+    if inner is not None and inner.name in ("BTreeSet", "BTreeMap"):
+        coll = SetV([]) if inner.name == "BTreeSet" else MapV([])
+        for y in out:
+            if inner.name == "BTreeSet":
+                set_model(eng, ctx, inner, "insert", [Ref(Cell(coll)), y])
+            else:
+                map_model(eng, ctx, inner, "insert", [Ref(Cell(coll)), y.fields[0], y.fields[1]])
+        return OK(coll) if as_result else coll
     res = VecV(out, None, "vec")
     return OK(res) if as_result else res
 
@@ -679,6 +1064,63 @@ def _set_search(eng, ctx, elem_ty, s, key):
         if c < 0:
             return False, i
     return False, len(s.elems)
+
+
+class MapV(SetV):
+    """BTreeMap<K, V>: `elems` holds Tup([k, v]) in key order."""
+    pass
+
+
+def _map_search(eng, ctx, kt, mp, key):
+    for i, kv in enumerate(mp.elems):
+        o = eng.dispatch(ctx, _cp("<%s as Ord>::cmp" % kt), [Ref(Cell(key)), Ref(Cell(kv.fields[0]))], {})
+        c = concretize_ordering(ctx, o)
+        if c == 0:
+            return True, i
+        if c < 0:
+            return False, i
+    return False, len(mp.elems)
+
+
+def map_model(eng, ctx, self_ty, m, args):
+    kt = self_ty.args[0] if self_ty.args else None
+    if m == "new":
+        return MapV([])
+    mp = deref(args[0])
+    if not isinstance(mp, SetV):
+        return NO_MODEL
+    if m == "insert":
+        found, i = _map_search(eng, ctx, kt, mp, args[1])
+        if found:
+            old = mp.elems[i].fields[1]
+            mp.elems[i].fields[1] = args[2]
+            return OPT_SOME(old)
+        mp.elems.insert(i, Tup([args[1], args[2]]))
+        return OPT_NONE()
+    if m in ("contains_key", "get", "get_mut", "remove"):
+        found, i = _map_search(eng, ctx, kt, mp, deref(args[1]))
+        if m == "contains_key":
+            return mk_bool(found)
+        if not found:
+            return OPT_NONE()
+        if m == "remove":
+            return OPT_SOME(mp.elems.pop(i).fields[1])
+        return OPT_SOME(Ref(mp.elems[i].fields, 1))
+    if m == "len":
+        return Sc("usize", len(mp.elems))
+    if m == "is_empty":
+        return mk_bool(not mp.elems)
+    if m == "keys":
+        return IterV([Ref(kv.fields, 0) for kv in mp.elems])
+    if m == "values":
+        return IterV([Ref(kv.fields, 1) for kv in mp.elems])
+    if m == "iter":
+        return IterV([Tup([Ref(kv.fields, 0), Ref(kv.fields, 1)]) for kv in mp.elems])
+    if m == "into_keys":
+        return IterV([kv.fields[0] for kv in mp.elems])
+    if m == "into_values":
+        return IterV([kv.fields[1] for kv in mp.elems])
+    return NO_MODEL
 
 
 def set_model(eng, ctx, self_ty, m, args):
@@ -704,37 +1146,89 @@ def set_model(eng, ctx, self_ty, m, args):
 
 # ------------------------------------------------------------------------------- str
 
-WS = [0x09, 0x0A, 0x0B, 0x0C, 0x0D, 0x20]
+# Unicode White_Space code points (what char::is_whitespace / str::trim use)
+WS_CODEPOINTS = [0x09, 0x0A, 0x0B, 0x0C, 0x0D, 0x20, 0x85, 0xA0, 0x1680] + list(range(0x2000, 0x200B)) + \
+    [0x2028, 0x2029, 0x202F, 0x205F, 0x3000]
 
 
-def _is_ws(b):
-    if not is_sym(b.v):
-        return b.v in WS
-    return z3.Or([b.v == w for w in WS])
+def char_is_ws(c):
+    if not is_sym(c.v):
+        return int(c.v) in WS_CODEPOINTS
+    return z3.Or([c.v == z3.BitVecVal(w, 32) for w in WS_CODEPOINTS])
 
 
-def str_trim(ctx, r):
-    """`str::trim` on an ASCII string of concrete length (stated bound: ASCII white space only;
-    the non-ASCII White_Space code points are outside)."""
-    v = deref(r)
+def decode_chars(ctx, v):
+    """UTF-8 decoding of a concrete-length string with (possibly) symbolic bytes: forks on the
+    lead-byte class of each character.  -> list of (char scalar, byte offset, byte length)."""
+    v = deref(v)
     if v.elems is None:
-        _unsupported("trim of opaque text")
-    el = list(v.elems)
-    i, j = 0, len(el)
-    while i < j and ctx.branch(_is_ws(el[i]), "trim-front"):
-        i += 1
-    while j > i and ctx.branch(_is_ws(el[j - 1]), "trim-back"):
-        j -= 1
-    return Ref(Cell(VecV(el[i:j], None, "str")))
+        _unsupported("character access to opaque text")
+    out, i, el = [], 0, v.elems
+    while i < len(el):
+        b = el[i]
+        if not is_sym(b.v):
+            x = int(b.v)
+            k = 1 if x < 0x80 else (2 if x < 0xE0 else (3 if x < 0xF0 else 4))
+        else:
+            conds = [z3.ULT(b.v, 0x80)]
+            if i + 1 < len(el):
+                conds.append(z3.And(z3.UGE(b.v, 0xC0), z3.ULT(b.v, 0xE0)))
+            if i + 2 < len(el):
+                conds.append(z3.And(z3.UGE(b.v, 0xE0), z3.ULT(b.v, 0xF0)))
+            k = 1 + ctx.choose_cond(conds, "utf8-lead")
+        bs = [z3.ZeroExt(24, bv(x)) for x in el[i:i + k]]
+        if k == 1:
+            c = bs[0]
+        elif k == 2:
+            c = ((bs[0] & 0x1F) << 6) | (bs[1] & 0x3F)
+        elif k == 3:
+            c = ((bs[0] & 0x0F) << 12) | ((bs[1] & 0x3F) << 6) | (bs[2] & 0x3F)
+        else:
+            c = ((bs[0] & 0x07) << 18) | ((bs[1] & 0x3F) << 12) | ((bs[2] & 0x3F) << 6) | (bs[3] & 0x3F)
+        c = z3.simplify(c)
+        out.append((Sc("char", c.as_long() if z3.is_bv_value(c) else c), i, k))
+        i += k
+    return out
+
+
+def str_slice(v, a, b):
+    v = deref(v)
+    return Ref(Cell(VecV(list(v.elems[a:b]), None, "str")))
+
+
+def str_trim(ctx, r, front=True, back=True):
+    """`str::trim[_start|_end]`: removes Unicode White_Space characters (exact on what the text
+    bound allows: all of UTF-8 for <= 3 bytes, ASCII beyond)."""
+    v = deref(r)
+    chars = decode_chars(ctx, v)
+    i, j = 0, len(chars)
+    if front:
+        while i < j:
+            c = char_is_ws(chars[i][0])
+            if not (c if isinstance(c, bool) else ctx.branch(c, "trim-front")):
+                break
+            i += 1
+    if back:
+        while j > i:
+            c = char_is_ws(chars[j - 1][0])
+            if not (c if isinstance(c, bool) else ctx.branch(c, "trim-back")):
+                break
+            j -= 1
+    a = chars[i][1] if i < len(chars) else len(v.elems)
+    b = (chars[j - 1][1] + chars[j - 1][2]) if j > 0 else a
+    return str_slice(v, a, max(a, b))
 
 
 def str_matches_count(ctx, r, ch):
+    """matches(char).count() as a term (an ASCII pattern byte cannot occur inside a multi-byte
+    sequence, so counting bytes is exact)."""
     v = deref(r)
     if v.elems is None:
         _unsupported("matches on opaque text")
-    c = ch.v
-    total = None
-    n = 0
+    if is_sym(ch.v) or int(ch.v) >= 0x80:
+        _unsupported("matches with a non-ASCII / symbolic pattern")
+    c = int(ch.v)
+    total, n = None, 0
     for b in v.elems:
         if not is_sym(b.v):
             n += 1 if b.v == c else 0
@@ -742,8 +1236,144 @@ def str_matches_count(ctx, r, ch):
             t = z3.If(b.v == z3.BitVecVal(c, 8), z3.BitVecVal(1, 64), z3.BitVecVal(0, 64))
             total = t if total is None else total + t
     cnt = Sc("usize", n if total is None else total + z3.BitVecVal(n, 64))
-    it = IterV(inner=cnt, fn="matches")
-    return it
+    return IterV(inner=cnt, fn="matches")
+
+
+def str_split(ctx, r, ch, limit=None):
+    """split / splitn on an ASCII char: forks on each byte being the separator."""
+    v = deref(r)
+    if v.elems is None or is_sym(ch.v) or int(ch.v) >= 0x80:
+        _unsupported("split on opaque text / non-ASCII pattern")
+    c = int(ch.v)
+    pieces, start = [], 0
+    for i, b in enumerate(v.elems):
+        if limit is not None and len(pieces) + 1 >= limit:
+            break
+        hit = (int(b.v) == c) if not is_sym(b.v) else ctx.branch(b.v == z3.BitVecVal(c, 8), "split-sep")
+        if hit:
+            pieces.append(str_slice(v, start, i))
+            start = i + 1
+    pieces.append(str_slice(v, start, len(v.elems)))
+    return IterV(pieces)
+
+
+def str_find_char(ctx, r, ch):
+    v = deref(r)
+    c = int(ch.v)
+    for i, b in enumerate(v.elems):
+        hit = (int(b.v) == c) if not is_sym(b.v) else ctx.branch(b.v == z3.BitVecVal(c, 8), "find-char")
+        if hit:
+            return OPT_SOME(Sc("usize", i))
+    return OPT_NONE()
+
+
+def is_char_boundary(ctx, v, i):
+    v = deref(v)
+    if i == 0 or i == len(v.elems):
+        return True
+    if i > len(v.elems):
+        return False
+    b = v.elems[i]
+    if not is_sym(b.v):
+        return not (0x80 <= int(b.v) < 0xC0)
+    return ctx.branch(z3.Not(z3.And(z3.UGE(b.v, 0x80), z3.ULT(b.v, 0xC0))), "char-boundary")
+
+
+def str_index_range(ctx, r, rng_, raw):
+    """`&s[a..b]` and friends: panics unless both ends are char boundaries within the string."""
+    v = deref(r)
+    n = len(v.elems)
+    rv = deref(rng_)
+    ty = rv.ty if isinstance(rv, Adt) else ""
+    get = lambda x: int(x.v) if not is_sym(x.v) else _unsupported("symbolic string index")
+    if ty == "RangeTo":
+        a, b = 0, get(rv.fields[0])
+    elif ty == "RangeFrom":
+        a, b = get(rv.fields[0]), n
+    elif ty == "Range":
+        a, b = get(rv.fields[0]), get(rv.fields[1])
+    elif ty == "RangeFull":
+        a, b = 0, n
+    elif ty == "RangeInclusive":
+        a, b = get(rv.fields[0]), get(rv.fields[1]) + 1
+    elif ty == "RangeToInclusive":
+        a, b = 0, get(rv.fields[0]) + 1
+    else:
+        _unsupported("string index with %r" % (rv,))
+    if a > b or b > n or not is_char_boundary(ctx, v, a) or not is_char_boundary(ctx, v, b):
+        _panic("index", "byte index is out of bounds or not a char boundary", raw)
+    return str_slice(v, a, b)
+
+
+def str_model(eng, ctx, cp, m, args):
+    r = args[0]
+    v = deref(r)
+    if not isinstance(v, VecV):
+        return NO_MODEL
+    if m == "trim":
+        return str_trim(ctx, r)
+    if m == "trim_start":
+        return str_trim(ctx, r, back=False)
+    if m == "trim_end":
+        return str_trim(ctx, r, front=False)
+    if m == "matches":
+        return str_matches_count(ctx, r, args[1])
+    if m == "split" and isinstance(args[1], Sc):
+        return str_split(ctx, r, args[1])
+    if m == "splitn" and isinstance(args[2], Sc):
+        return str_split(ctx, r, args[2], limit=int(args[1].v))
+    if m == "split_once" and isinstance(args[1], Sc):
+        pos = str_find_char(ctx, r, args[1])
+        if pos.variant == "None":
+            return pos
+        i = int(pos.fields[0].v)
+        return OPT_SOME(Tup([str_slice(v, 0, i), str_slice(v, i + 1, len(v.elems))]))
+    if m == "find" and isinstance(args[1], Sc):
+        return str_find_char(ctx, r, args[1])
+    if m == "contains" and isinstance(args[1], Sc):
+        return mk_bool(str_find_char(ctx, r, args[1]).variant == "Some")
+    if m in ("starts_with", "ends_with") and isinstance(args[1], Sc):
+        if not v.elems:
+            return mk_bool(False)
+        if is_sym(args[1].v) or int(args[1].v) >= 0x80:
+            _unsupported("starts_with with non-ASCII pattern")
+        b = v.elems[0 if m == "starts_with" else -1]
+        return mk_bool((int(b.v) == int(args[1].v)) if not is_sym(b.v) else (b.v == z3.BitVecVal(int(args[1].v), 8)))
+    if m == "chars":
+        return IterV([c for c, _, _ in decode_chars(ctx, v)])
+    if m == "char_indices":
+        return IterV([Tup([Sc("usize", o), c]) for c, o, _ in decode_chars(ctx, v)])
+    if m == "bytes":
+        return IterV(list(v.elems))
+    if m == "is_char_boundary" and not is_sym(args[1].v):
+        return mk_bool(is_char_boundary(ctx, v, int(args[1].v)))
+    if m == "is_ascii":
+        conds = [z3.ULT(bv(b), 0x80) for b in v.elems if is_sym(b.v)]
+        if any(not is_sym(b.v) and int(b.v) >= 0x80 for b in v.elems):
+            return mk_bool(False)
+        return mk_bool(z3.And(conds) if conds else True)
+    if m in ("len", "is_empty", "as_bytes", "as_str", "to_vec"):
+        return NO_MODEL            # handled by vec_model
+    return NO_MODEL
+
+
+def char_model(ctx, m, args):
+    c = args[0]
+    c = deref(c)
+    if m == "is_whitespace":
+        return mk_bool(char_is_ws(c))
+    if m == "is_ascii":
+        return mk_bool((int(c.v) < 0x80) if not is_sym(c.v) else z3.ULT(c.v, 0x80))
+    if m == "len_utf8":
+        if not is_sym(c.v):
+            x = int(c.v)
+            return Sc("usize", 1 if x < 0x80 else (2 if x < 0x800 else (3 if x < 0x10000 else 4)))
+        return Sc("usize", z3.If(z3.ULT(c.v, 0x80), z3.BitVecVal(1, 64), z3.If(z3.ULT(c.v, 0x800), z3.BitVecVal(2, 64),
+                                 z3.If(z3.ULT(c.v, 0x10000), z3.BitVecVal(3, 64), z3.BitVecVal(4, 64)))))
+    if m == "is_ascii_whitespace":
+        ws = [0x09, 0x0A, 0x0C, 0x0D, 0x20]
+        return mk_bool((int(c.v) in ws) if not is_sym(c.v) else z3.Or([c.v == w for w in ws]))
+    return NO_MODEL
 
 
 # ------------------------------------------------------------------------------- byte-layer stubs
@@ -812,6 +1442,13 @@ def decide_parse(ctx, seq):
     owner = ctx.side.get("bytes_nodes", {}).get(ident)
     ok = ctx.choose(2, "parse-ok@" + str(ident)) == 0
     if ok:
+        # a CBOR item occupies at least one byte: an empty input never parses
+        n = seq_len(ctx, seq)
+        if is_sym(n.v):
+            ctx.assume(n.v != 0)
+        elif n.v == 0:
+            from interp import Infeasible
+            raise Infeasible("empty input parses")
         exact = ctx.choose(2, "parse-consumes-all@" + str(ident)) == 0
         outcome = ("ok", node, exact)
     else:
